@@ -21,6 +21,43 @@ BUILT = {
  "C14": ("tables+aml", "differential monitor across six sink implementations, repeated serialisation, raw in-memory form and u8sum",
          "Each generated object is serialised twice and into Vec, byte-only, all-override, Checksum, Sdt and PackageBuilder sinks; streams must be identical; as_bytes() must equal the serialised stream for every Aml+IntoBytes type; u8sum must equal the arithmetic sum.",
          "trusted: harness sinks; Sdt sink skipped above 6 KB (quadratic)"),
+
+ "C06": ("aml", "online trace checker: independent ACPI-grammar parser over the emitted byte stream, compared with the canonicalised term tree",
+         "Random term trees over all 45 exported constructors (native and pre-serialised construction), every length-prefixed kind swept across the 63/64 and 4095/4096 (2^20 in thorough) boundaries singly and nested; the parser consumes all bytes, every PkgLength window is filled exactly, and the recovered tree equals the built one.",
+         "trusted: parser's opcode table (ACPI 6.5 §20.2, self-tested against iasl vectors); invocation arity supplied via reserved CALn names"),
+ "C07": ("scalar", "exhaustive execution of the real PkgLength encoder through the cfg-guarded hook + specification decoder; call-site ties by building real objects",
+         "All 2^28 exclusive lengths and all self-inclusive content lengths below the 2^28 limit are driven through the crate's encoder and decoded by the specification rule (lead-byte format, minimal width); each of the 15 public length-prefixed constructors and both field-entry forms is tied to it over swept sizes.",
+         "trusted: hook returns the private encoder's result unchanged; spec decoder"),
+ "C08": ("scalar", "exhaustive / boundary execution of the integer encoders through every carrier type vs an independent specification encoder",
+         "Every u8 and u16 value through all wider carriers; u32 exhaustively in thorough; u64/usize at all width boundaries, single-bit and byte-fill patterns and random values.",
+         "trusted: 15-line specification encoder/decoder"),
+ "C09": ("scalar", "specification NameString encoder/decoder vs Path::new output; refusal monitor for malformed strings; parse-back of the 11 path-taking constructors",
+         "Segment counts 1..=255 x rooted, each character position over its alphabet, random combinations, malformed strings at every position (must panic).",
+         "trusted: spec NameString rule; AML name alphabet as the domain"),
+ "C10": ("scalar", "reference descriptor encoder (ACPI 6.5 §6.4, self-tested against iasl output) + descriptor walker + buffer framing check",
+         "Every descriptor form with boundary-biased values and all flag combinations; templates of 0..n descriptors with payload sizes across 63/64, 255/256, 4095/4096, 65535/65536.",
+         "trusted: reference descriptor layouts; min <= max and representable size as the domain"),
+ "C11": ("options", "bounded-exhaustive enumeration of option-builder subsets, orders and repetitions; whole-image comparison with the reference encoder",
+         "For each of 14 option-bearing structures all subsets of its options, all orders for subsets <= 4, duplicates and 1-3x repetitions, all enumerated states; FADT flags: all subsets <= 3 and complements x 9 profiles (all 2^25 in thorough).",
+         "trusted: Appendix A flag bit assignments; overwrite-style setters repeated only with the same value"),
+ "C12": ("model", "reference-model monitor: cell -> last value map vs the matrix region after every assignment; checksum oracle",
+         "SLIT N<=5 (6 thorough) with all assignment sequences <= 2-3; HMAT all shapes 1..5 x 1..5 with all sequences <= 2; random larger shapes/histories incl. diagonal, mirrored, repeated, 1xn, nx1.",
+         "trusted: 10-line cell-map model"),
+ "C13": ("model", "reference-model monitor: Vec<u8> model with header rules vs as_slice/len/serialised stream after every operation; refusal monitor for out-of-range writes",
+         "Bounded-exhaustive sequences over a 67-operation alphabet from 4 initial lengths, random histories up to 300 ops; refused writes must leave the table unchanged.",
+         "trusted: 30-line byte-vector model; pushing zero bytes through the sink is not an append"),
+ "C15": ("aml", "differential monitor between alternative construction paths of the real crate",
+         "Scope::raw vs Scope::new for body sizes 0..4200 exhaustively x 6 path shapes (+2^20 neighbourhood in thorough) and generated child lists; PackageBuilder vs Package::new for 0..255 generated elements; &'static str vs String; usize vs u64.",
+         "trusted: nothing beyond byte equality"),
+ "C16": ("scalar", "specification decompression / inverse ToUUID applied to the emitted constants; refusal monitor for malformed strings",
+         "Every EISA character position exhaustively + 10^6 random ids (all 26^3*16^4 in thorough); every UUID nibble x 16 digits x both cases + random; malformed strings must panic.",
+         "trusted: spec EISAID and ToUUID rules (self-tested on PNP0501/PNP0A06 and the PCI _DSM UUID)"),
+ "C17": ("model", "reference-model monitor: i128 running sum vs raw_value after every operation; exhaustive state x byte x entry point",
+         "All 256 states x 256 bytes x 5 single-byte entry points with inverse pairs; random histories of slice/byte/sink operations.",
+         "trusted: wide-integer sum"),
+ "C18": ("refusal", "panic monitor at 24 narrowing sites, at field maximum / maximum+1 / far beyond, in a release build and (child process) an overflow-checked build; framing oracles at the maximum",
+         "Each site must accept and correctly frame the field maximum and must panic one past it and far beyond, in both build profiles.",
+         "trusted: field capacities of Appendix D; >= 4 GiB tables unreachable here"),
 }
 
 def main():
@@ -55,6 +92,11 @@ def main():
             "add_only": True,
         },
         "engines": [
+            {"name": "aml", "path": "harness/src/engines/aml_engine.rs", "serves_properties": ["C06", "C14", "C15"], "kind_free_text": "random AML term trees built through the real crate, parsed back by an independent parser; sink and construction-path differentials"},
+            {"name": "scalar", "path": "harness/src/engines/scalar_engine.rs", "serves_properties": ["C07", "C08", "C09", "C10", "C16"], "kind_free_text": "exhaustive / boundary execution of encoders over finite scalar domains with specification decoders"},
+            {"name": "options", "path": "harness/src/engines/options_engine.rs", "serves_properties": ["C11"], "kind_free_text": "bounded-exhaustive option subsets/orders/repetitions vs reference encoder"},
+            {"name": "model", "path": "harness/src/engines/model_engine.rs", "serves_properties": ["C12", "C13", "C17"], "kind_free_text": "executable sequential models (cell map, byte vector, wide sum) checked after every operation of generated histories"},
+            {"name": "refusal", "path": "harness/src/engines/refusal_engine.rs", "serves_properties": ["C18"], "kind_free_text": "panic monitors at narrowing sites in two build profiles"},
             {"name": "tables", "path": "harness/src/engines/tables_engine.rs", "serves_properties": ["C01", "C02", "C03", "C04", "C05", "C14"],
              "kind_free_text": "executes generated builder programs against the real crate, observes every prefix through recording sinks, judges with arithmetic / walker / reference-encoder oracles"},
         ],
